@@ -243,6 +243,9 @@ func runLLMNR(w *rt.World, res *hx.Result, realServer, realClient bool) *hx.Viol
 		if err != nil {
 			return &hx.Violation{Class: "start_failed", Key: sysName, Msg: err.Error()}
 		}
+		if chain == 2 {
+			srv.SetDebug(true) // the debug logging paths of Serve run too
+		}
 		lsTask = rt.GoHarness("llmnr-listen-and-serve", serverHost, func() { lsErr = srv.ListenAndServe() })
 	}
 
